@@ -320,6 +320,25 @@ func universe() []Val {
 		x.Field(0).SetString(secStr[v])
 		return x.Interface()
 	}))
+	// --- integers whose low 8/16/32 bits alone are a printable character (truncating conversions on the %c/%q/%U paths)
+	add(sv("integers above a truncation boundary", true, func(v int) interface{} {
+		return []interface{}{[2]uint64{0x100000041, 0x20001F600}[v], [2]int64{0x7F000000E9, -0xFFFFFFBF}[v], [2]uint32{0x10041, 0x20042}[v], [2]uint16{0x141, 0x242}[v], [2]uint64{1<<63 + 'x', 1<<40 + 'y'}[v]}
+	}))
+	add(sv("uint64 above 2^32 with printable low bits", true, func(v int) interface{} { return [2]uint64{0x100000041, 0x300000043}[v] }))
+	// --- containers whose element type is safe but whose other half is not
+	add(sv("map[secret string]SafeValue", true, func(v int) interface{} {
+		return []interface{}{map[string]safeIntT{secPlain[v]: 7}, map[string]redact.SafeString{secStr[v]: "pub"}, map[namedStr]safeT{namedStr(secPlain[v]): "p"}}
+	}))
+	add(sv("map[SafeValue]secret", true, func(v int) interface{} {
+		return []interface{}{map[safeT]string{"pub": secStr[v]}, map[safeIntT][]byte{3: []byte(secPlain[v])}}
+	}))
+	add(sv("struct{[]SafeValue; secret; map[string]SafeValue}", true, func(v int) interface{} {
+		return struct {
+			L []safeT
+			S string
+			M map[string]safeIntT
+		}{[]safeT{"a", "b"}, secStr[v], map[string]safeIntT{secPlain[v]: 1}}
+	}))
 	// --- several classifications at once (see dblSafeT)
 	add(sv("registered+SafeValue elements before a secret", true, func(v int) interface{} {
 		return []interface{}{dblSafeT(7), secStr[v], []dblSafeT{1, 2}, secInt[v], map[dblSafeT]string{3: secPlain[v]}, struct {
@@ -351,6 +370,9 @@ func universe() []Val {
 		var a interface{} = &structInner{secInt[v], 2}
 		return reflect.ValueOf(&a).Elem()
 	}))
+	// safe text ending in ill-formed UTF-8 without any marker lead byte (the final '?' guard is the only escaping it needs)
+	add(Val{Name: "Safe(string ending in a dangling byte)", Mk: func(v int) interface{} { return redact.Safe("id=\xff") }, Own: true, WrapOnly: true, Passive: true})
+	add(Val{Name: "SafeValue string ending in a dangling lead byte", Mk: func(v int) interface{} { return safeT("caf\xc3") }, Own: true, WrapOnly: true, Passive: true})
 	// --- method-bearing
 	m := func(name string, fmtOK bool, mk func(v int) interface{}) Val {
 		return Val{Name: name, Mk: mk, Fmt: fmtOK}
